@@ -84,10 +84,11 @@ type c03lScenario struct {
 	MinPool   int          `json:"min_pool"`
 	PerENI    int          `json:"per_eni"`
 	GCEvery   bool         `json:"gc_every"`   // pool adjustment on every reconcile (gcPeriod 0) or only when forced
-	RealMAC   bool         `json:"real_mac"`   // interfaces carry a MAC no link of the test netns has (agent GC then stops at its link lookup)
+	RealMAC   bool         `json:"real_mac"`   // interfaces carry a MAC no link of the test netns has
 	NoRuntime bool         `json:"no_runtime"` // NodeRuntime object does not exist at start
 	Legacy    []c03lLegacy `json:"legacy,omitempty"`
 	Ops       []c03lOp     `json:"ops"`
+	Witness   bool         `json:"witness,omitempty"` // deterministic witness run: the known-finding guard is off
 }
 
 func c03lGen(t *rapid.T) c03lScenario {
@@ -318,8 +319,9 @@ func c03lNewWorld(c *vt.Ctx, s c03lScenario) *c03lWorld {
 	w.cloud = c03cloud.New("i-1", "vsw-1", "zone-a")
 	// Without a MAC the agent's link lookup (link.GetDeviceNumber) resolves to the
 	// loopback device of the private test netns (the only plain device there; dummy
-	// links cannot be created in this sandbox), which lets the real gcPods run through.
-	// With a MAC no link has, gcPods stops at that lookup (recorded under C09).
+	// links cannot be created in this sandbox), so the GC's real route/rule cleanup
+	// runs. With a MAC no link has, the GC takes its "interface no longer attached"
+	// branch instead.
 	w.cloud.NoMAC = !s.RealMAC
 	for i := 0; i < 6; i++ {
 		w.slots = append(w.slots, &c03lSlot{})
@@ -787,7 +789,6 @@ func (w *c03lWorld) opDel(op c03lOp) {
 }
 
 func (w *c03lWorld) opFlush(op c03lOp) {
-	before := w.runtimeObj()
 	w.failRuntime = op.A == 1
 	err := w.crd.C03SyncNodeRuntime(w.ctx)
 	w.failRuntime = false
@@ -795,16 +796,13 @@ func (w *c03lWorld) opFlush(op c03lOp) {
 	if err != nil {
 		w.c.Label("flush:lost")
 	}
-	w.settle("flush", before)
 }
 
 func (w *c03lWorld) opSyncDel(op c03lOp) {
-	before := w.runtimeObj()
 	w.failRuntime = op.A == 1
 	err := w.crd.C03SyncDeletedPods(w.ctx)
 	w.failRuntime = false
 	w.c.Trace("    syncDeletedPods: err=%v", err)
-	w.settle("syncDeletedPods", before)
 }
 
 func (w *c03lWorld) opGC(op c03lOp) {
@@ -840,7 +838,6 @@ func (w *c03lWorld) opGC(op c03lOp) {
 			}
 		}
 	}
-	w.settle("gc", before)
 }
 
 func (w *c03lWorld) opReconcile(i int, op c03lOp) {
@@ -982,7 +979,7 @@ func (w *c03lWorld) strict(i int, tch c03cloud.Touch) {
 			if !uses {
 				continue
 			}
-			if vt.Known(c03lKnownReAdd) {
+			if vt.Known(c03lKnownReAdd) && !w.s.Witness {
 				w.c.Label("known:" + c03lKnownReAdd)
 				return
 			}
@@ -1003,6 +1000,13 @@ func c03lRun(c *vt.Ctx, s c03lScenario) {
 	}
 	for i, op := range s.Ops {
 		c.Trace("%d: %s p=%d a=%d b=%d f=%v", i, op.K, op.P, op.A, op.B, op.Faults)
+		var before *networkv1beta1.NodeRuntime
+		agentStep := false
+		switch op.K {
+		case "add", "del", "flush", "syncdel", "gc":
+			agentStep = true
+			before = w.runtimeObj()
+		}
 		switch op.K {
 		case "create":
 			w.opCreate(op)
@@ -1030,7 +1034,24 @@ func c03lRun(c *vt.Ctx, s c03lScenario) {
 		default:
 			c.Inconclusive("unknown op " + op.K)
 		}
+		if agentStep {
+			w.settle(op.K, before)
+		}
 	}
 }
 
 func TestVerifC03ClosedLoop(t *testing.T) { vt.Run(t, c03lGen, c03lRun) }
+
+// Deterministic witness of the candidate finding C03-readd-stale-deleted: the sandbox
+// of a running pod is re-created (DEL c0-1, teardown flushed, ADD c0-2 under the same
+// pod UID), then the pod object is force-deleted; the next reconcile frees the address
+// although sandbox c0-2 is still up and no DEL was issued for it.
+func TestVerifC03KnownWitnessReAdd(t *testing.T) {
+	s := c03lScenario{PerENI: 3, Witness: true, Ops: []c03lOp{
+		{K: "create"}, {K: "reconcile"}, {K: "add"}, {K: "del"}, {K: "flush"},
+		{K: "add"}, {K: "delobj"}, {K: "reconcile"},
+	}}
+	vt.Witness(t, "C03", c03lKnownReAdd,
+		"after a sandbox re-creation (DEL, flush, ADD with the same pod UID) the stale `deleted` status stays final; when the pod object is then force-deleted the controller frees the address while the new sandbox is still up",
+		s, c03lRun)
+}
